@@ -660,7 +660,8 @@ def oracle(r):
     for label, path, upd, u in r.variants:
         for k, m in oracle_variant(r, label, path, upd, u):
             bad.append((k, "%s [path %s]: %s" % (label, "-".join(chr(65 + i) for i in path), m),
-                        {"call": label, "path": path}))
+                        {"call": label, "path": path,
+                         "span": [u.first_point.t, u.last_point.t] if len(u._points) else None}))
     if hasattr(r, "alignment"):
         j, u = r.alignment
         ps = r.paths[(False, False, True)]
@@ -1009,7 +1010,7 @@ def with_alarm(seconds, f):
 def examine(spec, rng=None):
     """Run the implementation and the direct oracle on a spec.  Returns (run | None, bad list, skip reason)."""
     try:
-        r = with_alarm(20, lambda: run_impl(spec, rng=rng))
+        r = with_alarm(8, lambda: run_impl(spec, rng=rng))
     except _Timeout:
         return None, [], "timeout"
     for pol in POLICIES:
@@ -1064,26 +1065,21 @@ def classify(spec):
 
 
 def object_crosses_final_end(replay_obj):
-    """Known finding C09-K1: a timed object (slur) that starts in the last visited segment and ends after
-    that segment's end, while the path ends before the temporal end of the part or the following copy is
-    shorter -- its copy's end lies beyond the sum of the visited segments' lengths."""
+    """Known finding C09-K1: a timed object (slur) that starts in a visited segment and ends after that
+    segment's end is copied with its end at end + delta; when that lies beyond the sum of the visited
+    segments' lengths the unfolded part is longer than the concatenation.  Matches only when the observed
+    span is exactly explained by the furthest such end."""
     try:
-        if replay_obj.get("kind") != "length":
+        if replay_obj.get("kind") != "length" or "span" not in replay_obj:
             return False
-        spec = replay_obj["spec"]
-        r = run_impl(spec)
-        path = replay_obj["path"]
-        vis, total = visits_of(r, path)
-        s, e, off = vis[-1]
-        for row in r.objs:
-            if s <= row[2] < e and row[3] is not None and row[3] > e and row[1] not in (10, 11, 15):
-                return True
-        # an earlier visit whose crossing object reaches beyond the total
+        r = run_impl(replay_obj["spec"])
+        vis, total = visits_of(r, replay_obj["path"])
+        furthest = total
         for (s, e, off) in vis:
             for row in r.objs:
-                if s <= row[2] < e and row[3] is not None and row[3] - s + off > total and row[1] not in (10, 11, 15):
-                    return True
-        return False
+                if s <= row[2] < e and row[3] is not None and not (10 <= row[1] <= 17):
+                    furthest = max(furthest, row[3] - s + off)
+        return furthest > total and list(replay_obj["span"]) == [0, furthest]
     except Exception:
         return False
 
@@ -1102,7 +1098,7 @@ def run(ctx):
                    "starting_objects order, canonical dump of unfolded parts) and the Python oracle",
                    "determinism of partitura's unfolding for a given Part"]
     ctx.assumptions = ["segment ids are single characters chr(65+i) (fewer than 60 segments); ending numbers 1..9",
-                       "paths of 60 or more segments / more than 5000 paths / get_paths running > 20 s are counted and "
+                       "paths of 60 or more segments / more than 5000 paths / the implementation running > 8 s on a case are counted and "
                        "not compared (model fuel 64)",
                        "Clef copies are not compared with the model (the rule compares a clef with the previous clef "
                        "of any staff; the property does not name clefs)",
@@ -1155,9 +1151,11 @@ def run(ctx):
                 if kind in seen_kinds:
                     continue
                 seen_kinds.add(kind)
-                small = shrink(spec, kind) if origin != "small" else spec
-                obj = {"spec": small, "kind": kind, "message": msg}
+                obj = {"spec": spec, "kind": kind, "message": msg}
                 obj.update(extra)
+                known = any(ctx.matchers.get(k["id"]) and ctx.matchers[k["id"]](obj) for k in ctx.known)
+                if not known and origin != "small":
+                    obj["spec"] = shrink(spec, kind)      # shrink only what will be reported
                 res = ctx.violation("C09 %s: %s" % (kind, msg), obj)
                 if res != "known":
                     nviol += 1
